@@ -11,5 +11,6 @@ CONSTANTS
   GCLag = 0
   CheckStay = TRUE
   Deviation = "none"
+  GCMode = "strict"
 INVARIANTS NoGCError
 CHECK_DEADLOCK FALSE
